@@ -712,8 +712,13 @@ def read_vis_stmnt(line: str) -> tuple[Literal["vis"], VisInfo] | None:
     trailing_line = line[vis_match.end(0) :].split("!")[0]
     # A generic spec (`operator(.dot.)`, `assignment(=)`, `write(formatted)`)
     # names no entity: `dot` may well be a private procedure of the module
+    had_list = trailing_line.replace("::", "").strip() != ""
     trailing_line = FRegex.VIS_GEN_SPEC.sub(" ", trailing_line)
     mod_words = FRegex.WORD.findall(trailing_line)
+    if had_list and not mod_words:
+        # Only generic specs were listed: this is not the statement that sets
+        # the default accessibility of the scope
+        return None
     return "vis", VisInfo(vis_type, mod_words)
 
 
